@@ -44,6 +44,15 @@ def binop(op, l, r):
                 return mk_int(zint(l) - zint(r))
             if isinstance(op, ast.Mult) and (isinstance(l, int) or isinstance(r, int)):
                 return mk_int(zint(l) * zint(r))
+        if isinstance(op, ast.Mult) and (isinstance(l, list) or isinstance(r, list)):
+            lst, n = (l, r) if isinstance(l, list) else (r, l)
+            if isinstance(n, SInt) and not has_seg(lst) and all(x is None or isinstance(x, (str, int, float, bool)) for x in lst):
+                # [consts] * n: a run of n rounds (empty when n <= 0)
+                from .sym import ctx
+                if not ctx().branch(n.t > 0):
+                    return []
+                j = z3.Int(f"jrep({z3.simplify(n.t)})")
+                return [Seg(("rep", repr(lst), str(z3.simplify(n.t))), n, j, list(lst))]
         raise Unsupported(f"symbolic integer operation {type(op).__name__}")
     if is_symstr(l) or is_symstr(r):
         if isinstance(op, ast.Add) and isinstance(l, STRLIKE) and isinstance(r, STRLIKE):
@@ -194,7 +203,7 @@ def str_eq(l, r):
             return False
     if len(t.parts) == 1 and isinstance(t.parts[0], Hole):
         h = t.parts[0]
-        if h.kind == "ident" and not c.isidentifier():
+        if h.kind == "ident" and not c.isidentifier() and not (c == "*" and h.props.get("star")):
             return False
         if h.nonempty and c == "":
             return False
@@ -305,6 +314,18 @@ def contains(container, item):
             raise Unsupported(f"`in` on opaque {container!r}")
         return f(container, item)
     if isinstance(container, (list, tuple)) and has_seg(container):
+        # a plain constant against elements that compare by identity (AST nodes): never equal
+        if isinstance(item, (str, int, float, bytes, type(None))) and not is_symstr(item):
+            elems = []
+            for x in container:
+                elems.extend(x.items if isinstance(x, Seg) else [x])
+            def by_identity(x):
+                if isinstance(x, ast.AST):
+                    return True
+                return isinstance(x, Opaque) and x.cands is not None and \
+                    all(isinstance(k, type) and issubclass(k, ast.AST) for k in x.cands)
+            if all(by_identity(x) for x in elems):
+                return False
         raise Unsupported("`in` on a list with segments")
     if isinstance(item, (Opaque, SInt, SBool)) or is_symstr(item):
         if isinstance(container, (list, tuple)):
@@ -743,10 +764,21 @@ def str_method(obj, name, args, kwargs):
         # number of pieces is unknown (>= 1); pieces are unknown strings
         n = z3.Int(f"pieces({tagstr(obj.tag)},{args[0]!r})")
         ctx().assume(n >= 1)
+        # the pieces of a dotted name split at "." are identifiers
+        pk = "ident" if (obj.kind == "ident" and args[0] == ".") else "str"
         return Opaque(("split", obj.tag, args[0]), list, len=lambda o: SInt(n), truthy=True,
-                      unpack=lambda o, k: [Hole((obj.tag, "piece", i), "str") for i in range(k)],
-                      getitem=lambda o, i: Hole((obj.tag, "piece", i), "str", nonempty=obj.nonempty) if isinstance(i, int) and i >= 0
+                      unpack=lambda o, k: [Hole((obj.tag, "piece", i), pk) for i in range(k)],
+                      getitem=lambda o, i: Hole((obj.tag, "piece", i), pk, nonempty=obj.nonempty) if isinstance(i, int) and i >= 0
                       else (_ for _ in ()).throw(Unsupported("index into split() result")))
+    if name in ("partition", "rpartition") and len(args) == 1 and args[0] == "." and isinstance(obj, Hole) and obj.kind == "ident":
+        has = t_contains(".", obj)
+        if isinstance(has, SBool):
+            has = ctx().branch(has.t)
+        if not has:
+            return (obj, "", "") if name == "partition" else ("", "", obj)
+        if name == "partition":  # head = first component (the same string as split(".")[0])
+            return (Hole((obj.tag, "piece", 0), "ident"), ".", Hole((obj.tag, "after-first-dot"), "ident", dotted=True))
+        return (Hole((obj.tag, "before-last-dot"), "ident", dotted=True), ".", Hole((obj.tag, "last-piece"), "ident"))
     if name in ("startswith", "endswith") and len(args) == 1 and isinstance(args[0], str) and len(args[0]) == 1:
         t = as_tmpl(obj)
         if not t.parts:
